@@ -31,8 +31,25 @@ struct layout_stride::mapping {
 private:
     static constexpr auto rank = extents_type::rank();
 
+    // strides of layout_right::mapping<extents_type>() ([mdspan.layout.stride.cons]/1)
+    [[nodiscard]] static constexpr auto default_strides() noexcept -> array<index_type, rank>
+    {
+        auto result     = array<index_type, rank>{};
+        auto const ext  = extents_type{};
+        auto product    = index_type(1);
+        for (auto r = rank; r > 0; --r) {
+            result[r - 1] = product;
+            product       = static_cast<index_type>(product * ext.extent(r - 1));
+        }
+        return result;
+    }
+
 public:
-    constexpr mapping() noexcept               = default;
+    constexpr mapping() noexcept
+        : _extents{}
+        , _strides{default_strides()}
+    {
+    }
     constexpr mapping(mapping const&) noexcept = default;
 
     template <typename OtherIndexType>
